@@ -224,6 +224,19 @@ class Node(object):
 
 
 def gen_leaf(rng, S, positive=False):
+    """a leaf; in the exact (correspondence) mode a quarter of them get a user-set grad_lipschitz"""
+    node = _gen_leaf(rng, S, positive)
+    if not _FLOATS[0] and not positive and rng.random() < 0.25:
+        c = rng.choice([float('nan'), float('inf'), 0.0, 1.0, 3.5, 0.25])
+        node.py.grad_lipschitz = c
+        term = 'LNan' if c != c else ('LInf' if c == float('inf') else '(LFin %s)' % C.q(c))
+        inner = node.coq[len('(Xleaf %s ' % S.wq):-1]
+        node = Node(node.py, '(Xleaf %s (Lsetlip %s %s %s))' % (S.wq, S.wq, inner, term),
+                    ['set_grad_lipschitz', node.desc, repr(c)], S, True)
+    return node
+
+
+def _gen_leaf(rng, S, positive=False):
     import odl
     F = odl.solvers
     w = S.wq
